@@ -14,6 +14,7 @@ import (
 	"fmt"
 	"os"
 	"reflect"
+	"regexp"
 	"sort"
 	"strconv"
 	"strings"
@@ -312,6 +313,13 @@ func dispNewWorld(op string) *dispWorld {
 		{[]uint{2}, 1, t3, model.RoleTypeClient},
 		{[]uint{2}, 2, model.FeatureTypeTypeLoadControl, model.RoleTypeClient},
 		{[]uint{2}, 3, t4, model.RoleTypeServer},
+		// sub-entities that repeat the feature numbers (and types) of their parents: the registries and the write gate
+		// are keyed by the exact entity address, [1] is not [1,1]
+		{[]uint{1, 1}, 1, model.FeatureTypeTypeLoadControl, model.RoleTypeClient},
+		{[]uint{1, 1}, 2, t2, model.RoleTypeClient},
+		{[]uint{1, 2}, 1, model.FeatureTypeTypeLoadControl, model.RoleTypeClient},
+		{[]uint{2, 1}, 1, t3, model.RoleTypeClient},
+		{[]uint{2, 1}, 2, model.FeatureTypeTypeLoadControl, model.RoleTypeClient},
 	}
 	// the model's configuration, read back from the real objects
 	for _, e := range l.Entities() {
@@ -344,6 +352,19 @@ func (w *dispWorld) inject(p int, d model.DatagramType) (pan any) {
 	}
 	_, _ = w.peers[p].rd.HandleSpineMesssage(b)
 	return nil
+}
+
+// ents: the entity addresses every peer announces, in announcement order
+func (w *dispWorld) ents() [][]uint {
+	var out [][]uint
+	seen := map[string]bool{}
+	for _, rf := range w.rem {
+		if k := h.EntU(rf.ent); !seen[k] {
+			seen[k] = true
+			out = append(out, rf.ent)
+		}
+	}
+	return out
 }
 
 func (w *dispWorld) connected(p int) bool { return w.peers[p] != nil && w.peers[p].rd != nil }
@@ -399,7 +420,7 @@ func (w *dispWorld) connect(p int, devOf int) string {
 	pr.rd = w.l.RemoteDeviceForSki(pr.ski)
 	hd := w.nmHeader(p, 1, model.CmdClassifierTypeReply, false)
 	hd.MsgCounterReference = util.Ptr(model.MsgCounterType(1))
-	if pan := w.inject(p, model.DatagramType{Header: hd, Payload: model.PayloadType{Cmd: []model.CmdType{w.discovery(p, [][]uint{{0}, {1}, {2}}, false, nil, true)}}}); pan != nil {
+	if pan := w.inject(p, model.DatagramType{Header: hd, Payload: model.PayloadType{Cmd: []model.CmdType{w.discovery(p, w.ents(), false, nil, true)}}}); pan != nil {
 		return fmt.Sprintf("conn-panic %v", pan)
 	}
 	msgs := pr.w.Take()
@@ -456,18 +477,38 @@ type dispOut struct {
 	fn       int
 	src, dst *model.FeatureAddressType
 	payload  string // JSON of the function's data (replies and notifications)
+	nEntries int    // number of entries of a subscription / binding data reply
+	valS     string // canonical value id of the payload (set by dispRun.show)
+}
+
+// sdev: the device part of the source: 0 = the local device address, - = absent, 9 = anything else
+func (o dispOut) sdev() string {
+	switch {
+	case o.src == nil || o.src.Device == nil:
+		return "-"
+	case string(*o.src.Device) == dispLocalDev:
+		return "0"
+	}
+	return "9"
+}
+
+func (o dispOut) refS() string {
+	if o.ref < 0 {
+		return "-"
+	}
+	return strconv.FormatInt(o.ref, 10)
 }
 
 func (o dispOut) String() string {
 	switch o.kind {
 	case "reply":
-		return fmt.Sprintf("reply %d %d %s %s", o.ref, o.fn, h.AddrS(o.src), h.AddrS(o.dst))
+		return fmt.Sprintf("reply %s %d %s %s %s d%s", o.refS(), o.fn, h.AddrS(o.src), h.AddrS(o.dst), o.valS, o.sdev())
 	case "result":
-		return fmt.Sprintf("result %d %d %s %s", o.ref, o.err, h.AddrS(o.src), h.AddrS(o.dst))
+		return fmt.Sprintf("result %s %d %s %s d%s", o.refS(), o.err, h.AddrS(o.src), h.AddrS(o.dst), o.sdev())
 	case "readReq":
 		return fmt.Sprintf("readReq %d %s %s", o.fn, h.AddrS(o.src), h.AddrS(o.dst))
 	case "notify":
-		return fmt.Sprintf("notify %d %s %s", o.fn, h.AddrS(o.src), h.AddrS(o.dst))
+		return fmt.Sprintf("notify %d %s %s %s", o.fn, h.AddrS(o.src), h.AddrS(o.dst), o.valS)
 	}
 	return "other:" + o.kind
 }
@@ -509,6 +550,12 @@ func dispParseOut(m []byte) dispOut {
 			b, _ := json.Marshal(cd.Value)
 			o.payload = string(b)
 		}
+		if c.NodeManagementSubscriptionData != nil {
+			o.nEntries = len(c.NodeManagementSubscriptionData.SubscriptionEntry)
+		}
+		if c.NodeManagementBindingData != nil {
+			o.nEntries = len(c.NodeManagementBindingData.BindingEntry)
+		}
 	}
 	return o
 }
@@ -534,10 +581,10 @@ func dispEntOf(addr string) string { return strings.SplitN(addr, "/", 2)[0] }
 
 // ---------- one history
 
-type dispFlags struct{ r, u, e bool }
+type dispFlags struct{ r, u, e, o bool }
 
 func (f dispFlags) String() string {
-	return fmt.Sprintf("%d %d %d", h.B2i(f.r), h.B2i(f.u), h.B2i(f.e))
+	return fmt.Sprintf("%d %d %d %d", h.B2i(f.r), h.B2i(f.u), h.B2i(f.e), h.B2i(f.o))
 }
 
 type dispRun struct {
@@ -551,13 +598,19 @@ type dispRun struct {
 	done   []string
 	failed bool // a mismatch ended the history
 	ctr    uint64
+	// abstract data values: the model names a value by the operation that set it (value id); the harness records the
+	// digest the data had right after that operation and interns digests, so that both sides print the same token
+	valSeq    int
+	valDigest map[int]string
+	digIDs    map[string]int
 	// statistics for the floors
 	st *dispStats
 }
 
 type dispStats struct {
-	writes, writesOK, writesUnauth, writesEngineRej, binds, bindsOK, unbinds, unbindsOK, subsOK, notifies, deniedWithSubs int
-	covered                                                                                                               map[string]bool // classifier:function pairs of registered functions that were visited
+	writes, writesOK, writesUnauth, writesEngineRej, binds, bindsOK, unbinds, unbindsOK, subsOK, unsubsOK, notifies, deniedWithSubs int
+	reanns, unbindAfterReann, writeAfterUnbind, writesFromRelative                                                                  int
+	covered                                                                                                                         map[string]bool // classifier:function pairs of registered functions that were visited
 }
 
 func newDispStats() *dispStats { return &dispStats{covered: map[string]bool{}} }
@@ -603,6 +656,99 @@ func (x *dispRun) traces() [dispNPeers + 1][]dispOut {
 	return t
 }
 
+func (x *dispRun) digID(d string) int {
+	if x.digIDs == nil {
+		x.digIDs = map[string]int{}
+	}
+	id, ok := x.digIDs[d]
+	if !ok {
+		id = len(x.digIDs) + 1
+		x.digIDs[d] = id
+	}
+	return id
+}
+
+func (x *dispRun) newVal() int { x.valSeq++; return x.valSeq }
+
+func (x *dispRun) recordVal(id int, digest string, present bool) {
+	if x.valDigest == nil {
+		x.valDigest = map[int]string{}
+	}
+	if present {
+		x.valDigest[id] = digest
+	}
+}
+
+// show: canonical text of the outbound traces. A reply carries the data as it was before the step, a notification
+// the data after it; the value token is the interned digest of the payload (v#0: the function holds no data).
+func (x *dispRun) show(t [dispNPeers + 1][]dispOut, before, after map[string]string, pan any, wrote bool) string {
+	for p := 1; p <= dispNPeers; p++ {
+		for i := range t[p] {
+			o := &t[p][i]
+			if o.kind != "reply" && o.kind != "notify" {
+				continue
+			}
+			src := h.AddrS(o.src)
+			switch {
+			case src == "0/0" && (o.fn == 904 || o.fn == 905):
+				o.valS = fmt.Sprintf("v#n%d", o.nEntries)
+			case src == "0/0":
+				o.valS = "v#0" // node management computes its data: not modelled
+			default:
+				cur := before
+				if o.kind == "notify" {
+					cur = after
+				}
+				if _, ok := cur[fmt.Sprintf("%s#%d", src, o.fn)]; !ok {
+					o.valS = "v#0"
+				} else {
+					o.valS = fmt.Sprintf("v#%d", x.digID(o.payload))
+				}
+			}
+		}
+	}
+	return dispShow(t, pan, wrote)
+}
+
+var dispValTok = regexp.MustCompile(`^v(\d+)$`)
+
+// translate rewrites the value ids of a model answer into interned digests (see show).
+func (x *dispRun) translate(want string) string {
+	groups := strings.Split(want, " | ")
+	for gi, g := range groups {
+		segs := strings.Split(g, "; ")
+		for si, sg := range segs {
+			f := strings.Fields(sg)
+			nm := false
+			for i, tk := range f {
+				if tk == "reply" && i+3 < len(f) && (f[i+2] == "904" || f[i+2] == "905") && f[i+3] == "0/0" {
+					nm = true
+				}
+				m := dispValTok.FindStringSubmatch(tk)
+				if m == nil {
+					continue
+				}
+				id, _ := strconv.Atoi(m[1])
+				switch {
+				case nm:
+					f[i] = "v#n" + m[1]
+				case id == 0:
+					f[i] = "v#0"
+				default:
+					if d, ok := x.valDigest[id]; ok {
+						f[i] = fmt.Sprintf("v#%d", x.digID(d))
+					} else {
+						f[i] = "v#?" + m[1]
+					}
+				}
+			}
+			segs[si] = strings.Join(f, " ")
+		}
+		groups[gi] = strings.Join(segs, "; ")
+	}
+	return strings.Join(groups, " | ")
+}
+
 func dispShow(t [dispNPeers + 1][]dispOut, pan any, wrote bool) string {
 	var groups []string
 	for p := 1; p <= dispNPeers; p++ {
@@ -636,9 +782,24 @@ func (x *dispRun) exec(op string) bool {
 		x.w = dispNewWorld(op)
 		x.spec = newDispSpec()
 		x.done = append(x.done, op)
+		// the data the local features hold from the start: one value id each
+		x.valSeq, x.valDigest, x.digIDs = 0, map[int]string{}, map[string]int{}
+		init := x.w.digest()
+		var keys []string
+		for k := range init {
+			keys = append(keys, k)
+		}
+		sort.Strings(keys)
+		var dataCfg []string
+		for _, k := range keys {
+			id := x.newVal()
+			x.recordVal(id, init[k], true)
+			kp := strings.SplitN(k, "#", 2)
+			dataCfg = append(dataCfg, fmt.Sprintf("data %s %s %d", kp[0], kp[1], id))
+		}
 		if x.d != nil {
 			bad := x.d.Ask("clear") != "ok"
-			for _, l := range x.w.cfg {
+			for _, l := range append(append([]string{}, x.w.cfg...), dataCfg...) {
 				if x.d.Ask(l) != "ok" {
 					bad = true
 				}
@@ -653,6 +814,9 @@ func (x *dispRun) exec(op string) bool {
 	}
 	if x.w == nil {
 		return false
+	}
+	if f[0] == "setdata" {
+		return x.execSetData(op, f)
 	}
 	p, _ := strconv.Atoi(f[1])
 	if p < 1 || p > dispNPeers {
@@ -709,7 +873,8 @@ func (x *dispRun) exec(op string) bool {
 			}
 		}
 		x.unchanged(before, "drop")
-		x.compare(op, op, dispShow(t, nil, false), "drop")
+		x.sweep(op)
+		x.compare(op, op, x.show(t, nil, nil, nil, false), "drop")
 		return !x.failed
 	}
 	if !w.connected(p) {
@@ -718,7 +883,9 @@ func (x *dispRun) exec(op string) bool {
 	switch f[0] {
 	case "dg":
 		return x.execDg(op, f, p)
-	case "bind", "unbind", "sub":
+	case "reann":
+		return x.execReann(op, f, p)
+	case "bind", "unbind", "sub", "unsub":
 		return x.execCall(op, f, p)
 	case "entrem", "entadd":
 		return x.execEnt(op, f, p)
@@ -731,7 +898,7 @@ func (x *dispRun) compare(op, line, impl, kind string) {
 	if x.d == nil {
 		return
 	}
-	want := x.d.Ask(line)
+	want := x.translate(x.d.Ask(line))
 	if impl != want {
 		x.r.Mismatch(x.done, impl, want, "dispatch op "+op)
 		x.failed = true
@@ -817,10 +984,17 @@ func (x *dispRun) execDg(op string, f []string, p int) bool {
 	w := x.w
 	src, dst := f[2], f[3]
 	ctr, _ := strconv.ParseUint(f[4], 10, 64)
+	hasCtr := f[4] != "-" // a request without msgCounter: not well-formed, served by the repaired code
 	refS, clsS, ack := f[5], f[6], f[7] == "1"
 	fn, _ := strconv.Atoi(f[8])
-	v, part, bad := 0, false, false
+	v, part, bad, noerr, dd := 0, false, false, false, "0"
 	for _, t := range f[9:] {
+		if t == "noerr" {
+			noerr = true // result data without error number
+		}
+		if strings.HasPrefix(t, "dd=") {
+			dd = t[3:] // device part of the destination: - omitted, 9 another device's address
+		}
 		if strings.HasPrefix(t, "v=") {
 			v, _ = strconv.Atoi(t[2:])
 		}
@@ -840,6 +1014,15 @@ func (x *dispRun) execDg(op string, f []string, p int) bool {
 	cls := dispCls(clsS)
 	hd := model.HeaderType{AddressSource: h.FA(w.peers[p].dev, se, sf), AddressDestination: h.FA(dispLocalDev, de, df),
 		MsgCounter: util.Ptr(model.MsgCounterType(ctr)), CmdClassifier: &cls}
+	if !hasCtr {
+		hd.MsgCounter = nil
+	}
+	switch dd {
+	case "-":
+		hd.AddressDestination.Device = nil
+	case "9":
+		hd.AddressDestination.Device = util.Ptr(model.AddressDeviceType("OTHER"))
+	}
 	if refS != "-" {
 		rv, _ := strconv.ParseUint(refS, 10, 64)
 		hd.MsgCounterReference = util.Ptr(model.MsgCounterType(rv))
@@ -848,6 +1031,13 @@ func (x *dispRun) execDg(op string, f []string, p int) bool {
 		hd.AckRequest = &ack
 	}
 	cmd := dispCmd(fn, v, part)
+	if noerr && fn == 900 {
+		cmd.ResultData = &model.ResultDataType{}
+	}
+	valID := 0
+	if clsS == "write" {
+		valID = x.newVal() // the identity of this write as a value of the data it may set
+	}
 
 	// ---- facts of the moment, from the real objects through the public API (SPEC side)
 	srcAnnounced := w.peers[p].rd.FeatureByAddress(hd.AddressSource) != nil
@@ -869,7 +1059,7 @@ func (x *dispRun) execDg(op string, f []string, p int) bool {
 	if clsS == "write" && lf != nil && announcedWritable && registered && bad != engineRejects {
 		panic("op " + op + ": the bad token does not match the announced operations of the feature")
 	}
-	wf := !((clsS == "reply" || clsS == "result") && refS == "-") && ((fn == 900) == (clsS == "result"))
+	wf := !((clsS == "reply" || clsS == "result") && refS == "-") && ((fn == 900) == (clsS == "result")) && hasCtr && !noerr && dd == "0"
 
 	pan := w.inject(p, model.DatagramType{Header: hd, Payload: model.PayloadType{Cmd: []model.CmdType{cmd}}})
 	h.Settle(x.base)
@@ -885,11 +1075,15 @@ func (x *dispRun) execDg(op string, f []string, p int) bool {
 			}
 		}
 	}
-	impl := dispShow(t, pan, wrote)
+	after := w.digest()
+	if clsS == "write" {
+		d, ok := after[fmt.Sprintf("%s#%d", dst, fn)]
+		x.recordVal(valID, d, ok)
+	}
+	impl := x.show(t, before, after, pan, wrote)
 	if pan != nil {
 		impl = fmt.Sprintf("%d: panic", p)
 	}
-	after := w.digest()
 	changed := !reflect.DeepEqual(before, after)
 	shape := dispShape(t[p])
 	kind := clsS + ":" + shape
@@ -907,8 +1101,12 @@ func (x *dispRun) execDg(op string, f []string, p int) bool {
 	case !srcAnnounced || !wf:
 		// outside the quantifier of C01 (source not announced, or reply/result without reference, or result data
 		// under another classifier): recorded, and still nothing may change
-		if changed {
+		_, bound := x.spec.binds[dispPair{dst, p, src}]
+		if changed && !(clsS == "write" && srcAnnounced && announcedWritable && bound) {
 			x.fail("C03/data-changed-without-authorised-write", fmt.Sprintf("%s: %s", op, dispDiff(before, after)))
+		}
+		if srcAnnounced && pan == nil {
+			x.r.Eval("outside-wf:"+clsS+":"+shape, "")
 		}
 	default:
 		// C01: no response to any other peer
@@ -1060,6 +1258,9 @@ func (x *dispRun) execDg(op string, f []string, p int) bool {
 							if o.fn != fn || h.AddrS(o.src) != dst {
 								x.fail("C03/notification-content", fmt.Sprintf("%s: %s", op, o))
 							}
+							if cur, ok := after[key]; ok && o.payload != cur {
+								x.fail("C03/notification-content", fmt.Sprintf("%s: the notification carries %.120s, the data after the write is %.120s", op, o.payload, cur))
+							}
 						}
 					}
 				}
@@ -1094,7 +1295,88 @@ func (x *dispRun) execDg(op string, f []string, p int) bool {
 		if bad {
 			line += " bad"
 		}
-		want := x.d.Ask(line)
+		if noerr {
+			line += " noerr"
+		}
+		if dd != "0" {
+			line += " dd=" + dd
+		}
+		if clsS == "write" {
+			line += fmt.Sprintf(" val=%d", valID)
+		}
+		want := x.translate(x.d.Ask(line))
+		if impl != want {
+			x.r.Mismatch(x.done, impl, want, "dispatch op "+op)
+			x.failed = true
+		}
+	}
+	return !x.failed
+}
+
+// setdata <feature> <fn> [v=<k>] [part] — SetData (UpdateData with a partial filter for `part`) of the local
+// application through the public API: the value changes, the subscribers of the feature are notified, nobody gets a
+// reply or result.
+func (x *dispRun) execSetData(op string, f []string) bool {
+	w := x.w
+	e, fe := dispAddr(f[1])
+	fn, _ := strconv.Atoi(f[2])
+	lf := w.l.FeatureByAddress(h.FA(dispLocalDev, e, fe))
+	if lf == nil || lf.Type() == model.FeatureTypeTypeNodeManagement {
+		return false
+	}
+	if _, ok := dispFnName[fn]; !ok {
+		return false
+	}
+	v, part := 0, false
+	for _, t := range f[3:] {
+		if strings.HasPrefix(t, "v=") {
+			v, _ = strconv.Atoi(t[2:])
+		}
+		if t == "part" {
+			part = true
+		}
+	}
+	if part && (dispFnName[fn] != dispFnLimit || v == 0) {
+		return false
+	}
+	x.done = append(x.done, op)
+	cmd := dispCmd(fn, v, part)
+	payload := reflect.ValueOf(cmd).Field(dispFnField[dispFnName[fn]]).Interface()
+	before := w.digest()
+	valID := x.newVal()
+	pan := h.Recover(func() {
+		if part {
+			lf.UpdateData(model.FunctionType(dispFnName[fn]), payload, model.NewFilterTypePartial(), nil)
+		} else {
+			lf.SetData(model.FunctionType(dispFnName[fn]), payload)
+		}
+	})
+	h.Settle(x.base)
+	x.ev.take()
+	t := x.traces()
+	after := w.digest()
+	key := fmt.Sprintf("%s#%d", f[1], fn)
+	d, ok := after[key]
+	x.recordVal(valID, d, ok)
+	impl := x.show(t, before, after, pan, false)
+	if pan != nil {
+		impl = "panic"
+	}
+	for q := 1; q <= dispNPeers; q++ {
+		for _, o := range t[q] {
+			if o.isResponse() {
+				x.fail("C01/response-without-request", fmt.Sprintf("%s: peer %d received %s", op, q, o))
+			}
+		}
+	}
+	for k := range after {
+		if k != key && before[k] != after[k] {
+			x.fail("C03/write-changed-other-data", fmt.Sprintf("%s: %s", op, dispDiff(before, after)))
+		}
+	}
+	x.r.Eval("setdata", "")
+	if x.d != nil {
+		want := x.translate(x.d.Ask(fmt.Sprintf("setdata %s %d %d", f[1], fn, valID)))
 		if impl != want {
 			x.r.Mismatch(x.done, impl, want, "dispatch op "+op)
 			x.failed = true
@@ -1129,7 +1411,7 @@ func (x *dispRun) execCall(op string, f []string, p int) bool {
 	se, sf := dispAddr(server)
 	i := 4
 	var ft model.FeatureTypeType
-	if f[0] != "unbind" {
+	if f[0] != "unbind" && f[0] != "unsub" {
 		tid, _ := strconv.Atoi(f[4])
 		ft = dispTypes[tid%len(dispTypes)]
 		i = 5
@@ -1150,13 +1432,19 @@ func (x *dispRun) execCall(op string, f []string, p int) bool {
 			ca.Device, sa.Device = nil, nil
 		}
 		cmd = model.CmdType{NodeManagementBindingDeleteCall: spine.NewNodeManagementBindingDeleteCallType(ca, sa)}
+	case "unsub":
+		ca, sa := h.FA(dev, ce, cf), h.FA(dispLocalDev, se, sf)
+		if nodev {
+			ca.Device, sa.Device = nil, nil
+		}
+		cmd = model.CmdType{NodeManagementSubscriptionDeleteCall: spine.NewNodeManagementSubscriptionDeleteCallType(ca, sa)}
 	}
 	before := w.digest()
 	pan := w.inject(p, model.DatagramType{Header: w.nmHeader(p, ctr, model.CmdClassifierTypeCall, ack), Payload: model.PayloadType{Cmd: []model.CmdType{cmd}}})
 	h.Settle(x.base)
 	evs := x.ev.take()
 	t := x.traces()
-	impl := dispShow(t, pan, false)
+	impl := x.show(t, nil, nil, pan, false)
 	if pan != nil {
 		impl = fmt.Sprintf("%d: panic", p)
 		x.fail("C05/panic-on-well-formed-datagram", fmt.Sprintf("%s: %v", op, pan))
@@ -1165,10 +1453,10 @@ func (x *dispRun) execCall(op string, f []string, p int) bool {
 	accepted := false
 	wantT := api.EventTypeBindingChange
 	wantC := api.ElementChangeAdd
-	if f[0] == "sub" {
+	if f[0] == "sub" || f[0] == "unsub" {
 		wantT = api.EventTypeSubscriptionChange
 	}
-	if f[0] == "unbind" {
+	if f[0] == "unbind" || f[0] == "unsub" {
 		wantC = api.ElementChangeRemove
 	}
 	for _, e := range evs {
@@ -1209,6 +1497,11 @@ func (x *dispRun) execCall(op string, f []string, p int) bool {
 			x.st.subsOK++
 			x.spec.subs[pair] = true
 		}
+	case "unsub":
+		if accepted {
+			x.st.unsubsOK++
+			delete(x.spec.subs, pair)
+		}
 	case "unbind":
 		x.st.unbinds++
 		if accepted {
@@ -1226,9 +1519,136 @@ func (x *dispRun) execCall(op string, f []string, p int) bool {
 	if accepted {
 		out = "accepted"
 	}
+	x.sweep(op)
 	x.r.Eval(f[0]+":"+out, "")
 	if x.d != nil {
-		want := x.d.Ask(op)
+		want := x.translate(x.d.Ask(op))
+		if impl != want {
+			x.r.Mismatch(x.done, impl, want, "dispatch op "+op)
+			x.failed = true
+		}
+	}
+	return !x.failed
+}
+
+// sweep: SPEC C03 — the lookup the write gate uses (BindingManager.HasLocalFeatureRemoteBinding, public API) answers,
+// for EVERY local server feature and EVERY feature any connected peer announces, exactly what the SPEC registry holds:
+// the exact (connection, entity address, feature number) triple, nothing that merely resembles it, nothing deleted.
+func (x *dispRun) sweep(op string) {
+	w := x.w
+	bm := w.l.BindingManager()
+	for _, srv := range dispServers {
+		se, sf := dispAddr(srv)
+		lf := w.l.FeatureByAddress(h.FA(dispLocalDev, se, sf))
+		if lf == nil {
+			continue
+		}
+		// the registry content itself (public API): exactly the SPEC's entries for this server feature
+		entries := bm.BindingsOnFeature(*lf.Address())
+		got := map[dispPair]bool{}
+		for _, en := range entries {
+			q := 0
+			for p := 1; p <= dispNPeers; p++ {
+				if w.peers[p] != nil && en.ClientFeature.Device().Ski() == w.peers[p].ski {
+					q = p
+				}
+			}
+			got[dispPair{srv, q, h.AddrS(en.ClientFeature.Address())}] = true
+		}
+		for pr := range got {
+			if _, ok := x.spec.binds[pr]; !ok {
+				x.fail("C03/registry-holds-binding-the-spec-does-not", fmt.Sprintf("after %s: the binding registry holds peer %d feature %s on %s; SPEC registry of this server feature: %s", op, pr.peer, pr.client, srv, x.specOn(srv)))
+			}
+		}
+		for pr, mark := range x.spec.binds {
+			if pr.server == srv && mark == "" && !got[pr] {
+				x.fail("C03/registry-lost-binding", fmt.Sprintf("after %s: the binding of peer %d feature %s to %s, granted earlier and never deleted, is not in the registry", op, pr.peer, pr.client, srv))
+			}
+		}
+		if len(entries) == 0 {
+			continue // nothing the lookup could confuse
+		}
+		holders := map[int]bool{}
+		for pr := range got {
+			holders[pr.peer] = true
+		}
+		for p := 1; p <= dispNPeers; p++ {
+			// every feature of the peers that hold an entry here, and of the peer the operation came from; the other
+			// peers' features differ in the device part (H-devaddr)
+			if !w.connected(p) || !(holders[p] || strings.Contains(op+" ", " "+strconv.Itoa(p)+" ") && strings.Fields(op)[1] == strconv.Itoa(p)) {
+				continue
+			}
+			for _, e := range w.peers[p].rd.Entities() {
+				for _, rf := range e.Features() {
+					cl := h.AddrS(rf.Address())
+					mark, inSpec := x.spec.binds[dispPair{srv, p, cl}]
+					has := bm.HasLocalFeatureRemoteBinding(lf.Address(), rf.Address())
+					switch {
+					case has && !inSpec:
+						x.fail("C03/gate-lookup-holds-binding-the-registry-does-not", fmt.Sprintf("after %s: the lookup of the write gate says peer %d feature %s is bound to %s; no such binding was granted, or it was deleted, or its holder is gone (SPEC registry of this server feature: %s)", op, p, cl, srv, x.specOn(srv)))
+					case !has && inSpec && mark == "":
+						x.fail("C03/gate-lookup-lost-binding", fmt.Sprintf("after %s: peer %d feature %s holds a binding to %s granted earlier and never deleted, the lookup of the write gate denies it", op, p, cl, srv))
+					}
+				}
+			}
+		}
+	}
+}
+
+func (x *dispRun) specOn(srv string) string {
+	var l []string
+	for pr := range x.spec.binds {
+		if pr.server == srv {
+			l = append(l, fmt.Sprintf("%d:%s", pr.peer, pr.client))
+		}
+	}
+	sort.Strings(l)
+	return "[" + strings.Join(l, " ") + "]"
+}
+
+// reann p ctr ref ack — the peer repeats its discovery reply (every entity announced again, features unchanged): the
+// code re-creates all remote feature objects; bindings and subscriptions stay registered and stay deletable.
+func (x *dispRun) execReann(op string, f []string, p int) bool {
+	w := x.w
+	x.done = append(x.done, op)
+	ctr, _ := strconv.ParseUint(f[2], 10, 64)
+	ack := f[4] == "1"
+	hd := w.nmHeader(p, ctr, model.CmdClassifierTypeReply, ack)
+	if f[3] != "-" {
+		rv, _ := strconv.ParseUint(f[3], 10, 64)
+		hd.MsgCounterReference = util.Ptr(model.MsgCounterType(rv))
+	}
+	before := w.digest()
+	pan := w.inject(p, model.DatagramType{Header: hd, Payload: model.PayloadType{Cmd: []model.CmdType{w.discovery(p, w.ents(), false, nil, true)}}})
+	h.Settle(x.base)
+	x.ev.take()
+	t := x.traces()
+	impl := x.show(t, nil, nil, pan, false)
+	shape := dispShape(t[p])
+	if pan != nil {
+		impl = fmt.Sprintf("%d: panic", p)
+		x.fail("C05/panic-on-well-formed-datagram", fmt.Sprintf("%s: %v", op, pan))
+	} else {
+		if f[3] != "-" && shape != dispAckShape(ack) {
+			x.fail("C01/accepted-reply-wrong-response", fmt.Sprintf("%s: responses %q", op, shape))
+		}
+		for q := 1; q <= dispNPeers; q++ {
+			for _, o := range t[q] {
+				if q != p && o.isResponse() {
+					x.fail("C01/response-to-other-peer", fmt.Sprintf("%s by peer %d: peer %d received %s", op, p, q, o))
+				}
+				if q == p && o.isResponse() {
+					x.addressing(o, p, ctr, "0/0", "0/0")
+				}
+			}
+		}
+		x.unchanged(before, op)
+		x.sweep(op)
+	}
+	x.st.reanns++
+	x.r.Eval("reann", "")
+	if x.d != nil {
+		want := x.translate(x.d.Ask(op))
 		if impl != want {
 			x.r.Mismatch(x.done, impl, want, "dispatch op "+op)
 			x.failed = true
@@ -1245,9 +1665,8 @@ func (x *dispRun) execEnt(op string, f []string, p int) bool {
 		return false // removing the device-information entity wedges the peer: C05's subject, never generated here
 	}
 	exists := w.peers[p].rd.Entity(dispEnt(e)) != nil
-	if f[0] == "entadd" && exists {
-		return false // re-announcing an existing entity re-creates its feature objects: C08's subject
-	}
+	// (an "added" notification for a known entity is a re-announcement: the code re-creates the entity's feature
+	// objects, the registries keep their entries)
 	x.done = append(x.done, op)
 	ctr, _ := strconv.ParseUint(f[3], 10, 64)
 	ack := f[4] == "1"
@@ -1261,7 +1680,7 @@ func (x *dispRun) execEnt(op string, f []string, p int) bool {
 	h.Settle(x.base)
 	x.ev.take()
 	t := x.traces()
-	impl := dispShow(t, pan, false)
+	impl := x.show(t, nil, nil, pan, false)
 	shape := dispShape(t[p])
 	if pan != nil {
 		impl = fmt.Sprintf("%d: panic", p)
@@ -1300,9 +1719,15 @@ func (x *dispRun) execEnt(op string, f []string, p int) bool {
 			}
 		}
 	}
+	if f[0] == "entadd" && exists {
+		x.st.reanns++
+	}
+	if pan == nil {
+		x.sweep(op)
+	}
 	x.r.Eval(f[0], "")
 	if x.d != nil {
-		want := x.d.Ask(op)
+		want := x.translate(x.d.Ask(op))
 		if impl != want {
 			x.r.Mismatch(x.done, impl, want, "dispatch op "+op)
 			x.failed = true
@@ -1384,6 +1809,25 @@ func dispWitnessDrop() []string {
 		"dg 1 2/2 2/2 104 - write 1 " + lim + " v=3", "drop 2", "dg 1 2/2 2/2 105 - write 0 " + lim + " v=4 part"}
 }
 
+// hierarchical entity addresses: the binding of [1]/1 authorises neither [1,1]/1 nor [1,2]/1, and the reverse
+func dispWitnessPrefix() []string {
+	lim := strconv.Itoa(dispFnID[dispFnLimit])
+	lc := strconv.Itoa(dispTypeID[model.FeatureTypeTypeLoadControl])
+	return []string{dispWorldFixed, "conn 1", "conn 2", "sub 2 1/1 1/1 " + lc + " 100 0", "bind 1 1/1 1/1 " + lc + " 101 1", "dg 1 1/1 1/1 102 - write 1 " + lim + " v=3",
+		"dg 1 1.1/1 1/1 103 - write 1 " + lim + " v=4", "dg 1 1.2/1 1/1 104 - write 1 " + lim + " v=5",
+		"bind 1 2.1/2 2/2 " + lc + " 105 1", "dg 1 2.1/2 2/2 106 - write 1 " + lim + " v=6", "dg 1 2/2 2/2 107 - write 1 " + lim + " v=7"}
+}
+
+// bind, re-announcement of the holder's entity (both routes), unbind, write: deleted means rejected
+func dispWitnessReann() []string {
+	lim := strconv.Itoa(dispFnID[dispFnLimit])
+	lc := strconv.Itoa(dispTypeID[model.FeatureTypeTypeLoadControl])
+	return []string{dispWorldFixed, "conn 1", "bind 1 1/1 1/1 " + lc + " 101 1", "sub 1 1/1 1/1 " + lc + " 102 1", "entadd 1 1 103 1", "dg 1 1/1 1/1 104 - write 1 " + lim + " v=3",
+		"sub 1 1/1 1/1 " + lc + " 105 1", "unbind 1 1/1 1/1 106 1", "dg 1 1/1 1/1 107 - write 1 " + lim + " v=4",
+		"bind 1 2/2 2/2 " + lc + " 108 1", "reann 1 109 2 1", "dg 1 2/2 2/2 110 - write 1 " + lim + " v=5", "unsub 1 1/1 1/1 111 1",
+		"unbind 1 2/2 2/2 112 1", "dg 1 2/2 2/2 113 - write 1 " + lim + " v=6", "reann 1 114 3 0", "reann 1 115 9 1"}
+}
+
 // ---------- generator
 
 var dispOverviewPanics = true
@@ -1409,6 +1853,59 @@ func (g *dispGen) connectedPeers() []int {
 
 // server features and the client features of a peer that fit them (type-wise)
 var dispServers = []string{"1/1", "1/2", "2/1", "2/2"}
+
+// the entities a peer can announce as removed / added (again); [0] is never touched
+var dispRemEnts = []string{"1", "2", "1.1", "1.2", "2.1"}
+
+// relatives: the announced client features that share the feature number with c and whose entity address is a proper
+// prefix or extension of c's (what a sloppy address comparison would confuse with c)
+func (g *dispGen) relatives(c string) []string {
+	ce, cf := dispAddr(c)
+	var out []string
+	for _, rf := range g.x.w.rem {
+		if rf.feat != cf || rf.role != model.RoleTypeClient || len(rf.ent) == len(ce) {
+			continue
+		}
+		a, b := rf.ent, ce
+		if len(a) > len(b) {
+			a, b = b, a
+		}
+		pre := true
+		for i := range a {
+			if a[i] != b[i] {
+				pre = false
+			}
+		}
+		if pre {
+			out = append(out, fmt.Sprintf("%s/%d", h.EntU(rf.ent), rf.feat))
+		}
+	}
+	return out
+}
+
+// reannOp: the peer announces again what it has announced: the whole tree by a repeated discovery reply, or the entity
+// of one of its bound / subscribed client features by an "added" notification
+func (g *dispGen) reannOp(p int, ent string) string {
+	if ent == "" || g.rng.Intn(2) == 0 {
+		ref := strconv.Itoa(1 + g.rng.Intn(6))
+		return fmt.Sprintf("reann %d %d %s %d", p, g.next(), ref, g.ack())
+	}
+	return fmt.Sprintf("entadd %d %s %d %d", p, ent, g.next(), g.ack())
+}
+
+// writeAs: a write of a writable function (if any) of the server feature by the given client feature
+func (g *dispGen) writeAs(p int, client, server string) string {
+	fns := g.writableFns(server, true)
+	fn := dispFnID[dispFnLimit]
+	if len(fns) > 0 {
+		fn = fns[g.rng.Intn(len(fns))]
+	}
+	extra := ""
+	if dispFnName[fn] == dispFnLimit {
+		extra = fmt.Sprintf(" v=%d", 3+g.rng.Intn(90))
+	}
+	return fmt.Sprintf("dg %d %s %s %d - write %d %d%s", p, client, server, g.next(), g.ack(), fn, extra)
+}
 
 func (g *dispGen) fitting(server string) (clients []string, typ model.FeatureTypeType) {
 	e, f := dispAddr(server)
@@ -1565,6 +2062,15 @@ func (g *dispGen) writeOp(p int) string {
 	case c < 78 && len(foreign) > 0: // the binding of another peer: same addresses, other connection
 		pr := foreign[g.rng.Intn(len(foreign))]
 		return mk(pr.client, pr.server, anyFn(pr.server))
+	case c < 74 && len(own) > 0 && len(g.relatives(own[0].client)) > 0: // the parent / sub-entity feature with the bound feature's number
+		pr := own[0]
+		for _, o := range own {
+			if len(g.relatives(o.client)) > 0 && g.rng.Intn(2) == 0 {
+				pr = o
+			}
+		}
+		g.x.st.writesFromRelative++
+		return mk(g.pick(g.relatives(pr.client)), pr.server, anyFn(pr.server))
 	case c < 86 && len(own) > 0: // own binding, but another server feature or another client feature
 		pr := own[g.rng.Intn(len(own))]
 		if g.rng.Intn(2) == 0 {
@@ -1631,12 +2137,9 @@ func (g *dispGen) anyOp(p int) string {
 		// wedges the peer (DESIGN appendix A): C05's subject, never generated here
 		cls = "read"
 	}
-	if !dispOverviewPanics && cls == "result" {
-		fn = 900
-	}
 	ref := "-"
 	if cls == "reply" || cls == "result" || g.rng.Intn(4) == 0 {
-		if g.rng.Intn(12) > 0 || (!dispOverviewPanics && (cls == "reply" || cls == "result")) {
+		if g.rng.Intn(12) > 0 {
 			rr := w.peers[p].readReqs
 			if len(rr) > 0 && g.rng.Intn(2) == 0 {
 				ref = strconv.FormatUint(rr[len(rr)-1-g.rng.Intn(dispMin(len(rr), 3))], 10)
@@ -1649,7 +2152,38 @@ func (g *dispGen) anyOp(p int) string {
 	if cls == "write" && dispFnName[fn] == dispFnLimit {
 		extra = fmt.Sprintf(" v=%d", 3+g.rng.Intn(90)) // limit lists are always written with their three changeable limits
 	}
-	return fmt.Sprintf("dg %d %s %s %d %s %s %d %d%s", p, src, dst, g.next(), ref, cls, g.ack(), fn, extra)
+	// outside C01's quantifier, inside the correspondence (and C05's "still serves"): result data without error number,
+	// destination device omitted or foreign, and - only against a tree whose PrintMessageOverview is repaired, the
+	// member as written only approximates the panic on the first answer - requests without msgCounter
+	if fn == 900 && g.rng.Intn(10) == 0 {
+		extra += " noerr"
+	}
+	if g.rng.Intn(16) == 0 {
+		extra += g.pick([]string{" dd=-", " dd=9"})
+	}
+	ctr := strconv.FormatUint(g.next(), 10)
+	if !dispOverviewPanics && g.rng.Intn(20) == 0 {
+		ctr = "-"
+	}
+	return fmt.Sprintf("dg %d %s %s %s %s %s %d %d%s", p, src, dst, ctr, ref, cls, g.ack(), fn, extra)
+}
+
+// setOp: the local application sets data of a server feature (mostly the limit lists, in full or in part)
+func (g *dispGen) setOp() string {
+	srv := g.pick(dispServers)
+	if g.rng.Intn(3) > 0 {
+		srv = g.pick([]string{"1/1", "2/2"})
+	}
+	if srv == "1/1" || srv == "2/2" {
+		extra := ""
+		if g.rng.Intn(3) == 0 {
+			extra = " part"
+		}
+		return fmt.Sprintf("setdata %s %d v=%d%s", srv, dispFnID[dispFnLimit], 3+g.rng.Intn(90), extra)
+	}
+	e, f := dispAddr(srv)
+	fds := dispFds(g.x.w.l.FeatureByAddress(h.FA(dispLocalDev, e, f)).Type())
+	return fmt.Sprintf("setdata %s %d", srv, fds[g.rng.Intn(len(fds))])
 }
 
 // history generates and executes one random history online (the generator looks at the SPEC registry of the
@@ -1693,15 +2227,54 @@ func (env *dispEnv) history(rng interface{ Intn(int) int }, n int, c03 bool) *di
 		case c < wShare+10:
 			x.exec(g.bindOp("bind", p))
 		case c < wShare+15:
-			x.exec(g.unbindOp(p))
+			uop := g.unbindOp(p)
+			uf := strings.Fields(uop)
+			_, held := x.spec.binds[dispPair{uf[3], p, uf[2]}]
+			if held && rng.Intn(3) == 0 {
+				// bind ... re-announcement of the holder's entity ... unbind: the entry must still be deletable
+				if x.exec(g.reannOp(p, dispEntOf(uf[2]))) {
+					x.st.unbindAfterReann++
+				}
+			}
+			x.exec(uop)
+			if held && rng.Intn(2) == 0 && x.w.connected(p) {
+				// ... and rejected again as soon as it is deleted
+				if x.exec(g.writeAs(p, uf[2], uf[3])) {
+					x.st.writeAfterUnbind++
+				}
+			}
 		case c < wShare+20:
 			x.exec(g.bindOp("sub", p))
 		case c < wShare+23:
-			x.exec(fmt.Sprintf("entrem %d %d %d %d", p, 1+rng.Intn(2), g.next(), g.ack()))
+			x.exec(fmt.Sprintf("entrem %d %s %d %d", p, g.pick(dispRemEnts), g.next(), g.ack()))
 		case c < wShare+27:
-			x.exec(fmt.Sprintf("entadd %d %d %d %d", p, 1+rng.Intn(2), g.next(), g.ack()))
+			x.exec(fmt.Sprintf("entadd %d %s %d %d", p, g.pick(dispRemEnts), g.next(), g.ack()))
 		case c < wShare+29:
 			x.exec(fmt.Sprintf("drop %d", p))
+		case c < wShare+34:
+			x.exec(g.setOp())
+		case c < wShare+37:
+			x.exec(g.reannOp(p, g.pick(dispRemEnts)))
+		case c < wShare+40:
+			// delete a subscription (mostly one that exists), now and then right after a re-announcement
+			var own []dispPair
+			for pr := range x.spec.subs {
+				if pr.peer == p {
+					own = append(own, pr)
+				}
+			}
+			sort.Slice(own, func(i, j int) bool { return fmt.Sprint(own[i]) < fmt.Sprint(own[j]) })
+			if len(own) > 0 && rng.Intn(5) > 0 {
+				pr := own[rng.Intn(len(own))]
+				if rng.Intn(3) == 0 {
+					x.exec(g.reannOp(p, dispEntOf(pr.client)))
+				}
+				x.exec(fmt.Sprintf("unsub %d %s %s %d %d", p, pr.client, pr.server, g.next(), g.ack()))
+			} else {
+				srv := g.pick(dispServers)
+				cl, _ := g.fitting(srv)
+				x.exec(fmt.Sprintf("unsub %d %s %s %d %d", p, g.pick(cl), srv, g.next(), g.ack()))
+			}
 		default:
 			x.exec(g.anyOp(p))
 		}
@@ -1729,7 +2302,7 @@ func TestDispatch(t *testing.T) {
 		"every step compared with Spine.Disp (outputs per connection incl. error numbers, write effect) and judged by the C01 rule table on the "+
 		"outbound trace of ALL peers and by the C03 monitor (data digests through the public API, notifications, events, SPEC binding registry). "+
 		"Not generated on purpose: the empty discovery reply (panics) and the *empty full discovery notification* (wipes the peer's entities and "+
-		"wedges the peer) - both belong to C05; removal of entity [0]; re-announcement of an existing entity (C08); delete calls naming another "+
+		"wedges the peer) - both belong to C05; removal of entity [0]; delete calls naming another "+
 		"peer's device (C09). non-trivial = distinct (classifier, function, ack, destination kind, role, registered) -> response shape of "+
 		"well-formed datagrams from announced features")
 	defer r.Write()
@@ -1761,13 +2334,14 @@ func TestDispatch(t *testing.T) {
 		return q.HasSpecFail("C03/binding-lost-to-other-peers-entity-removal")
 	})
 	// reply / result without reference, result without result data: PrintMessageOverview panics on them as written
-	// (C05). The model has no member for a repaired header layer, so they are generated only while they panic.
+	// (C05); the member overviewPanics = false is the repaired header layer, which serves them.
 	dispOverviewPanics = probe([]string{dispWorldFixed, "conn 1", "dg 1 1/1 1/3 101 - reply 0 " + strconv.Itoa(dispFnID[dispFnLimit])},
 		func(q *h.Report, _ *dispRun) bool { return q.Dist["reply:panic"] > 0 })
-	r.SetFlag("overviewPanics", dispOverviewPanics, nil, "reply/result without msgCounterReference panics in PrintMessageOverview (C05); when repaired such datagrams are no longer generated here")
-	if o := os.Getenv("VERIF_DISP_FLAGS"); len(o) == 3 {
+	env.fl.o = dispOverviewPanics
+	r.SetFlag("overviewPanics", dispOverviewPanics, nil, "reply/result without msgCounterReference, result without result data panic in PrintMessageOverview (C05); off: the repaired header layer serves them (requests without msgCounter are generated only then)")
+	if o := os.Getenv("VERIF_DISP_FLAGS"); len(o) == 4 {
 		// harness self-test only: force a member of the model family (a wrong member must disagree with the code)
-		env.fl = dispFlags{o[0] == '1', o[1] == '1', o[2] == '1'}
+		env.fl = dispFlags{o[0] == '1', o[1] == '1', o[2] == '1', o[3] == '1'}
 		r.Info["flags_forced"] = o
 	}
 	r.SetFlag("resultOnResult", env.fl.r, dispWitnessResult(), "a result addressed to an unknown local feature is answered with an error result (ProcessCmd)")
@@ -1797,13 +2371,13 @@ func TestDispatch(t *testing.T) {
 	}
 
 	// ---- corpus: the witnesses (each known finding is reproduced on every run), then past failures
-	for _, ops := range [][]string{dispWitnessResult(), dispWitnessUnbind(), dispWitnessEntity(), dispWitnessDrop()} {
+	for _, ops := range [][]string{dispWitnessResult(), dispWitnessUnbind(), dispWitnessEntity(), dispWitnessDrop(), dispWitnessPrefix(), dispWitnessReann()} {
 		env.runOps(r, ops, true)
 	}
 
 	// ---- seeded generation
 	rng := h.Rng(1)
-	hist := h.Scale(900, 20000)
+	hist := h.Scale(900, 12000)
 	after := 0
 	for i := 0; i < hist; i++ {
 		if r.MismatchN > 0 {
@@ -1871,6 +2445,11 @@ func TestDispatch(t *testing.T) {
 	if r.MismatchN > 0 {
 		return // generation stopped at the mismatch: the floors say nothing, the verdict is the mismatch
 	}
+	r.Info["re-announcements"] = map[string]int{"total": st.reanns, "before_an_unbind_of_a_held_binding": st.unbindAfterReann, "writes_right_after_unbind": st.writeAfterUnbind,
+		"writes_from_parent_or_sub_entity_of_a_bound_feature": st.writesFromRelative, "subscriptions_deleted": st.unsubsOK}
+	r.Floor("re-announcement before unbind (per 1000 unbinds)", st.unbindAfterReann*1000, st.unbinds, 40)
+	r.Floor("write right after unbind (per 1000 unbinds)", st.writeAfterUnbind*1000, st.unbinds, 80)
+	r.Floor("writes from the parent / sub-entity feature of a bound one (per 1000 writes)", st.writesFromRelative*1000, st.writes, 10)
 	r.Floor("writes accepted", st.writesOK, st.writes, 0.15)
 	r.Floor("writes unauthorised", st.writesUnauth, st.writes, 0.40)
 	r.Floor("binding requests granted", st.bindsOK, st.binds, 0.30)
